@@ -121,6 +121,7 @@ type c14State struct {
 	br       *c14Bits
 	// branch counters for the harness' distribution report
 	escapes, resets, cSat, runIdxMax, interruptions, eolRuns int
+	intByIdx, intEscByIdx               [32]int // run interruptions (and those coded with the LIMIT escape) per RUNindex
 }
 
 func c14NewState(p c14Params, br *c14Bits) *c14State {
@@ -222,6 +223,10 @@ func (s *c14State) regular(q1, q2, q3, ra, rb, rc int) int {
 	k := 0 // A.5.1
 	for (s.N[q] << uint(k)) < s.A[q] {
 		k++
+		if k > 32 { // only reachable on a corrupted stream
+			s.br.err = fmt.Errorf("Golomb parameter out of range")
+			return 0
+		}
 	}
 	m := s.golomb(k, p.LIMIT)
 	var e int // A.5.2 inverse
@@ -293,8 +298,17 @@ func (s *c14State) interruption(ra, rb, ritype, runIndexBefore int) int {
 	k := 0
 	for (s.N[q] << uint(k)) < temp {
 		k++
+		if k > 32 {
+			s.br.err = fmt.Errorf("Golomb parameter out of range")
+			return 0
+		}
 	}
+	escBefore := s.escapes
 	em := s.golomb(k, p.LIMIT-c14J[runIndexBefore]-1)
+	s.intByIdx[runIndexBefore]++
+	if s.escapes > escBefore {
+		s.intEscByIdx[runIndexBefore]++
+	}
 	t := em + ritype
 	mp := t & 1
 	ab := (t + mp) / 2
